@@ -859,16 +859,34 @@ func (e *FactEngine) newUniverse(req *Formula, body *ast.BlockStmt) (*universe, 
 					conds = append(conds, e.boolForm(t.Cond, sc))
 				}
 			case *ast.SwitchStmt:
-				if t.Tag == nil {
-					for _, cl := range t.Body.List {
-						for _, x := range cl.(*ast.CaseClause).List {
+				for _, cl := range t.Body.List {
+					for _, x := range cl.(*ast.CaseClause).List {
+						if t.Tag == nil {
 							conds = append(conds, e.boolForm(x, sc))
+						} else {
+							conds = append(conds, e.boolForm(&ast.BinaryExpr{X: t.Tag, Op: token.EQL, Y: x}, sc))
 						}
 					}
 				}
 			}
 			return true
 		})
+		// sibling atoms: eq(P,#c') for a path P the requirement compares with a constant
+		reqPaths := map[string]bool{}
+		for a := range m {
+			if pth, _, ok := splitEqConst(a); ok {
+				reqPaths[pth] = true
+			}
+		}
+		for _, cf := range conds {
+			am := map[string]bool{}
+			cf.atoms(am)
+			for a := range am {
+				if pth, _, ok := splitEqConst(a); ok && reqPaths[pth] && len(m) < 13 {
+					m[a] = true
+				}
+			}
+		}
 		for round := 0; round < 2; round++ {
 			for _, cf := range conds {
 				am := map[string]bool{}
